@@ -16,7 +16,9 @@ CONSTANTS Sizes, Tier
 Ops == {"enc", "dec"}
 KeyTypes == {"x25519", "ssh-ed25519", "ssh-rsa", "scrypt"}
 KeyArgs == {"r", "R", "ei"}            \* encryption: -r RECIPIENT | -R FILE | -e -i IDENTITYFILE
-Inputs == {"file", "pipe", "missing"}
+\* "tty": no INPUT argument and standard input is a terminal: the input is typed (plaintext ended by end-of-input when
+\* encrypting; an armored file when decrypting, read up to its END line)
+Inputs == {"file", "pipe", "missing", "tty"}
 \* "trunc_chunk": the input ends exactly at a chunk boundary (after the nonce, or after the first whole chunk)
 Damages == {"none", "hdrbit", "mac", "paybit_first", "paybit_last", "trunc", "trunc_chunk", "wrongkey", "garbage"}
 \* "devnull": -o /dev/null (a character device that takes everything); "fifo": -o names a FIFO somebody reads from
@@ -50,6 +52,7 @@ DecCommands == {Cmd("dec", key, "r", ar, inp, sz, dmg, ov.out, ov.spelling, ov.l
                   ov \in UNION {OutVariants("dec", k2, "r", i2) : k2 \in KeyTypes, i2 \in {"file", "pipe"}}}
 Commands == EncCommands \cup DecCommands
   \cup {Cmd(op, "x25519", "r", FALSE, "missing", 1, "none", "new", "same", "zero", "none") : op \in Ops}
+  \cup {Cmd(op, "x25519", "r", ar, "tty", 1, "none", o, "same", "zero", "none") : op \in Ops, ar \in BOOLEAN, o \in {"tty", "tty_dash", "new"}}
   \cup {Cmd(op, "x25519", "r", FALSE, "file", 1, "none", "new", "same", "zero", fe) : op \in Ops, fe \in FlagErrs \ {"none", "R_stdin", "i_stdin"}}
   \cup {Cmd("enc", "x25519", "R", FALSE, "pipe", 1, "none", "new", "same", "zero", "R_stdin"),
         Cmd("dec", "x25519", "r", FALSE, "pipe", 1, "none", "new", "same", "zero", "i_stdin")}
@@ -57,6 +60,7 @@ MoreThanAPipeHolds(sz) == sz >= 2     \* size class 2 is two chunks; a pipe hold
 Meaningful(c) ==
   /\ (c.key = "scrypt") => (c.keyarg = "r" /\ c.out \in {"new", "existing", "missingdir", "same_input", "limit"})
   /\ (c.out = "same_input") => c.input = "file"
+  /\ (c.input = "tty" /\ c.op = "dec") => c.armor              \* what is typed is text
   /\ (c.out = "fifo_gone") => MoreThanAPipeHolds(c.size)      \* (a result that fits into the pipe is gone with its reader, unnoticed by anyone)
   /\ (c.out = "same_keyfile") => ~(c.op = "enc" /\ c.keyarg = "r") /\ c.key # "scrypt"
   /\ (c.op = "dec") => c.damage \in DamagesFor(c.size)
